@@ -25,11 +25,12 @@ func registerC11() {
 			"files, and chains of 2-3 of them; for every stream EVERY byte offset c in [0, len] x {clean cut, injected non-EOF read error from c on: a private sentinel, io.ErrUnexpectedEOF, io.ErrClosedPipe, os.ErrClosed, and - rotating by offset, all of them at every file boundary - deadline / timeout / cancellation / connection-reset / path errors} x six entry points x " +
 			"{1-byte reads, greedy reads} is executed: c before the entry point's needed prefix => a non-nil error and (Decode, DecodeChained) a partial File holding exactly " +
 			"the messages of the records complete before c; c at or after it => the intact result; at every other offset Decode / DecodeChained run with all options on (second chunker): same error and messages, and the unknown-field / unknown-message lists of the partial File must lie between the model of the complete records and the model including the record in flight; clean EOF exactly on a file boundary of a chain => the files before it and " +
-			"nil; a fault on a boundary => error. The same cuts are also made on disk and read through *os.File (every third offset). Family large-streams: model streams of 9-40 KB (several refills of the decoder's 4096-byte buffer) cut/faulted at every offset within 40 bytes of a multiple of 4096, within 64 bytes of either end, and at every 211th offset in between, under 1000-byte and greedy chunkers, same oracle. A case is one (stream, offset, kind, entry point, chunker) execution; non-trivial: c lies strictly inside the stream; distinct by construction",
+			"nil; a fault on a boundary => error. The same cuts are also made on disk and read through *os.File (every third offset). Family huge-streams: files of 6 and 9 MiB cut or faulted at offsets beyond 4 MiB (Decode, DecodeChained), same oracle. Family large-streams: model streams of 9-40 KB (several refills of the decoder's 4096-byte buffer) cut/faulted at every offset within 40 bytes of a multiple of 4096, within 64 bytes of either end, and at every 211th offset in between, under 1000-byte and greedy chunkers, same oracle. A case is one (stream, offset, kind, entry point, chunker) execution; non-trivial: c lies strictly inside the stream; distinct by construction",
 		Assume:        []string{"partial content is compared on message slots (the file_id of a file whose file_id record is incomplete is not defined)"},
 		MinNontrivial: 5000,
 		Families: []lib.Family{
 			{Name: "streams", N: func(t string) uint64 { return tierN(t, 48, 4000) }, Run: c11Stream},
+			{Name: "huge-streams", N: func(t string) uint64 { return 2 }, Run: c11Huge},
 			{Name: "large-streams", N: func(t string) uint64 { return tierN(t, 6, 300) }, Run: c11Large},
 		},
 		Exhaustive: func(string) bool { return false },
@@ -98,6 +99,66 @@ func c11Large(c *lib.Ctx, idx uint64) {
 		nfiles = 2
 	}
 	c11Run(c, rng, idx, nfiles, true)
+}
+
+// c11Huge: one file of 6 (9) MiB - mostly 65 KB records of an unknown message, a known record
+// after every tenth, some thousand small records at the end - cut or faulted at offsets beyond
+// 4 MiB (block boundaries, inside the big records, inside the small ones, inside the CRC): an
+// error, and a partial File with exactly the messages complete before the cut.
+func c11Huge(c *lib.Ctx, idx uint64) {
+	rng := lib.NewRand("C11.huge", idx)
+	plan := hugePlan(rng, []int{6, 9}[idx], 3000)
+	b := plan.Bytes()
+	f := c11File{plan, b, plan.RecordOffsets()}
+	partialCache = map[partialKey]*lib.Expectation{}
+	c.SetInflight(b[:4096])
+	n := len(b)
+	cuts := []int{4<<20 - 1, 4 << 20, 4<<20 + 1, 4<<20 + 4096, 4<<20 + 70000, 5<<20 + 123, n - 40000, n - 20001, n - 9000, n - 4097, n - 4096, n - 301, n - 3, n - 2, n - 1}
+	if idx == 1 {
+		cuts = append(cuts, 8<<20, 8<<20+1, 8<<20+300000)
+	}
+	for _, cut := range cuts {
+		if cut <= 0 || cut >= n {
+			continue
+		}
+		for fault := 0; fault < 3; fault++ {
+			for _, ch := range []lib.Chunker{{Kind: "greedy"}, {Kind: "fixed", Size: 65536}, {Kind: "fixed", Size: 4096}} {
+				if fault == 2 {
+					ch.ErrWithData, ch.EOFWithData = true, true
+				}
+				for _, ep := range []string{"Decode", "DecodeChained"} {
+					r := &lib.Reader{Data: b, Limit: cut, Fault: fault >= 1, Ch: ch}
+					var res lib.CallResult
+					c11WithOpts = false
+					o := lib.Guard(func() { res = lib.Call(ep, r) })
+					c.Eval()
+					where := fmt.Sprintf("%s, %s at offset %d of a %d byte file, %s reads", ep, []string{"clean cut", "read fault", "read fault delivered with the last bytes"}[fault], cut, n, ch)
+					if o.Panicked || o.Hang {
+						c.Violation(b[:4096], "%s: panicked/hung: %s", where, o.Panic)
+						return
+					}
+					if res.Err == nil {
+						c.Violation(b[:4096], "%s: nil error for an incomplete file", where)
+						return
+					}
+					var got *lib.Content
+					if ep == "Decode" {
+						got = lib.FileContent(res.File)
+					} else if len(res.Files) == 1 {
+						got = lib.FileContent(res.Files[0])
+					} else if len(res.Files) > 1 {
+						c.Violation(b[:4096], "%s: %d files returned for one incomplete file", where, len(res.Files))
+						return
+					}
+					if !partialOK(c, b[:4096], where, f, cut, got) {
+						return
+					}
+				}
+			}
+		}
+	}
+	c.Count("huge_stream_bytes", int64(n))
+	c.Nontrivial(b[:4096], []byte{byte(idx)})
 }
 
 func c11Run(c *lib.Ctx, rng *lib.Rand, idx uint64, nfiles int, large bool) {
